@@ -248,6 +248,7 @@ type srcPlan struct {
 	EOFWithData bool
 	Std         int // 0: tx source; 1: bytes.Reader; 2: bytes.Buffer wrapped to hide ReadByte
 	ReadBuf     int
+	Reuse       int // 0: fresh Reader; 1: Reader that decoded another message before, then Reset; 2: Reset after a partial read
 }
 
 func genSrcPlan(t *rapid.T, label string) srcPlan {
@@ -257,6 +258,7 @@ func genSrcPlan(t *rapid.T, label string) srcPlan {
 		EOFWithData: rapid.Bool().Draw(t, label+".eofwithdata"),
 		Std:         rapid.SampledFrom([]int{0, 0, 0, 0, 1, 2}).Draw(t, label+".std"),
 		ReadBuf:     rapid.SampledFrom([]int{1, 2, 7, 64, 512, 4096, 40000}).Draw(t, label+".readbuf"),
+		Reuse:       rapid.SampledFrom([]int{0, 0, 0, 0, 1, 2}).Draw(t, label+".reuse"),
 	}
 }
 
@@ -276,6 +278,15 @@ func (s srcPlan) class() string {
 
 type onlyReader struct{ io.Reader }
 
+// warmup is "warm-up message" sync-flushed by compress/flate, tail stripped.
+var warmup = func() []byte {
+	var b bytes.Buffer
+	fw, _ := flate.NewWriter(&b, 6)
+	fw.Write([]byte("warm-up message"))
+	fw.Flush()
+	return b.Bytes()[:b.Len()-4]
+}()
+
 // decompress is oracle B's subject: wsflate.Reader over the compressed message
 // served as the plan says. It returns the recovered bytes and a problem.
 func decompress(compressed []byte, s srcPlan) ([]byte, string) {
@@ -294,7 +305,21 @@ func decompress(compressed []byte, s srcPlan) ([]byte, string) {
 			src = tx.ByteSrc{Src: ts}
 		}
 	}
-	rd := wsflate.NewReader(src, flateDtor)
+	var rd *wsflate.Reader
+	if s.Reuse == 0 {
+		rd = wsflate.NewReader(src, flateDtor)
+	} else {
+		// documented reuse: "Reader might be reused for different io.Reader objects after its Reset()"
+		rd = wsflate.NewReader(bytes.NewReader(warmup), flateDtor)
+		if s.Reuse == 1 {
+			if p, err := io.ReadAll(rd); err != nil || string(p) != "warm-up message" {
+				return nil, fmt.Sprintf("warm-up message: %q, %v", p, err)
+			}
+		} else {
+			rd.Read(make([]byte, 3))
+		}
+		rd.Reset(src)
+	}
 	buf := make([]byte, s.ReadBuf)
 	var out []byte
 	for i := 0; ; i++ {
@@ -373,7 +398,22 @@ func TestRoundTrip(t *testing.T) {
 
 		// --- the library's writer
 		rec := tx.NewRec()
-		w := wsflate.NewWriter(rec, flateCtor(level))
+		var w *wsflate.Writer
+		switch rapid.SampledFrom([]int{0, 0, 0, 1, 2}).Draw(t, "writer-reuse") {
+		case 0:
+			w = wsflate.NewWriter(rec, flateCtor(level))
+		case 1: // documented reuse after a complete message
+			w = wsflate.NewWriter(tx.NewRec(), flateCtor(level))
+			w.Write([]byte("previous message"))
+			w.Flush()
+			w.Reset(rec)
+			hx.Class("roundtrip/writer=reset-after-message")
+		default: // Reset drops unflushed data
+			w = wsflate.NewWriter(tx.NewRec(), flateCtor(level))
+			w.Write([]byte("abandoned"))
+			w.Reset(rec)
+			hx.Class("roundtrip/writer=reset-mid-message")
+		}
 		var written []byte
 		closed := false
 		for i, o := range pat.Ops {
@@ -789,6 +829,38 @@ func (b *badCompressor) Flush() error {
 	panic("unknown mode")
 }
 
+// Close makes badCompressor an io.Closer: the same misbehaviour when the
+// message is ended by Close (the README wiring).
+func (b *badCompressor) Close() error {
+	good := b.flushes < b.goodFor
+	b.flushes++
+	if good || b.mode == "good" {
+		if err := b.fw.Close(); err != nil {
+			return err
+		}
+		return b.forward(0)
+	}
+	switch b.mode {
+	case "noop", "passthrough":
+		return nil
+	case "append":
+		if err := b.fw.Close(); err != nil {
+			return err
+		}
+		if err := b.forward(0); err != nil {
+			return err
+		}
+		_, err := b.out.Write(b.extra)
+		return err
+	case "truncate":
+		if err := b.fw.Close(); err != nil {
+			return err
+		}
+		return b.forward(b.drop)
+	}
+	panic("unknown mode")
+}
+
 func TestBadCompressor(t *testing.T) {
 	hx.Check(t, 4, func(t *rapid.T) {
 		mode := rapid.SampledFrom([]string{"noop", "noop", "passthrough", "passthrough", "append", "append", "truncate", "truncate", "good"}).Draw(t, "mode")
@@ -835,7 +907,11 @@ func TestBadCompressor(t *testing.T) {
 				steps = append(steps, step{kind: 'f'})
 			}
 		}
-		steps = append(steps, step{kind: 'f'})
+		if rapid.IntRange(0, 2).Draw(t, "end-by-close") == 0 {
+			steps = append(steps, step{kind: 'c'}) // message ended by Close alone
+		} else {
+			steps = append(steps, step{kind: 'f'})
+		}
 		for k := rapid.IntRange(0, 3).Draw(t, "more"); k > 0; k-- {
 			switch rapid.IntRange(0, 2).Draw(t, "more.kind") {
 			case 0:
@@ -867,16 +943,21 @@ func TestBadCompressor(t *testing.T) {
 				}
 				continue
 			}
-			if s.kind == 'f' {
+			if s.kind == 'f' || s.kind == 'c' {
+				call := map[byte]string{'f': "Flush", 'c': "Close"}[s.kind]
 				endsInTail := bytes.HasSuffix(em.all, tail)
 				switch {
 				case !endsInTail && err == nil:
-					t.Fatalf("mode %s level %d payload %s(%d): Flush at step %d returned nil although the compressor's output so far (%s) does not end in 0000ffff; destination got %s",
-						mode, level, class, len(payload), i, shortTail(em.all), short(rec.Bytes()))
+					t.Fatalf("mode %s level %d payload %s(%d): %s at step %d returned nil although the compressor's output so far (%s) does not end in 0000ffff; destination got %s",
+						mode, level, class, len(payload), call, i, shortTail(em.all), short(rec.Bytes()))
 				case !endsInTail:
 					detected++
+					hx.Class("bad/reported-by=" + call)
 				case err == nil:
 					undetectable++
+				}
+				if s.kind == 'c' && err == nil {
+					break // a closed compressor is not used further
 				}
 			}
 			if err != nil {
